@@ -44,8 +44,8 @@ add('C06', ['C06', 'C06S'], 'model_checking',
 add('C07', ['C07', 'C07S', 'C07F', 'C07N'], 'fault_enumeration',
     "For histories of writes interleaved with flush-inducing events, every filesystem-operation index of the run is a crash point on Pebble's strict in-memory FS: the reopened DB must equal the fold of entries 0..c for its stored commit offset c, terms acknowledged before the crash survive, replay from c+1 reaches the uncrashed state, and commit offsets are written exactly once in order. Stage 2: schedule exploration of the real leader write pipeline (2-3 writers, WAL sync thread, cursors, ack receivers): every batch commit of the commit-offset record seen at the kv.Factory seam is previous+1 and every committed entry is applied. Protocol-event stage on the follower (h/c07f, lib/ffsm): every sequence of 13 follower protocol events up to the depth from a preloaded state (two entries held, one applied): after every event the follower's database is the fold of the entries it holds up to the commit offset stored in it. The schedule stage also runs a real follower on a real directory whose apply round is in progress (plain, and with a slow read of one entry) when the next term starts and the new leader restores the node from a snapshot: the stored commit offset is not below what the node answered to the transfer and the database is the fold of the leader's log up to it.",
     "DESIGN.md §2.4 E3b, §3 C07", "Pebble's StrictMem semantics are the crash model; WAL side: everything appended survives or only synced entries survive.", "exhaustive crash-point enumeration over the real storage engine on a crash-simulating filesystem + " + T_SCHED + " + " + T_FSM, 'e3+sched+fsm')
-add('C08', ['C08'], 'exploration',
-    "Stateless exploration of the real leader controller (real WAL, real Pebble DB, real quorum tracker and follower cursors) with scripted followers: every schedule with <=2 (thorough <=3) non-default scheduling choices of 2-3 concurrent writers, the WAL sync thread, cursors and ack receivers; oracle on results, WAL contiguity, apply order, response identity, and commit/head offsets at every scheduling point.",
+add('C08', ['C08', 'C08L'], 'exploration',
+    "Stateless exploration of the real leader controller (real WAL, real Pebble DB, real quorum tracker and follower cursors) with scripted followers: every schedule with <=2 (thorough <=3) non-default scheduling choices of 2-3 concurrent writers, the WAL sync thread, cursors and ack receivers; oracle on results, WAL contiguity, apply order, response identity, and commit/head offsets at every scheduling point. Leader-conformance stage (h/c08l, lib/lfsm): a real leader controller against checking followers, every sequence of leader protocol events (elections with followers that are level, behind, empty, diverged or down; writes with and without a quorum; restart; crash) up to the depth; after every event the commit offset is stored by the leader and at least one follower, no write completes and no leader is installed without a quorum.",
     "DESIGN.md §2.3, §3 C08", SCHED_NOTE + " Followers are scripted.", T_SCHED, 'sched')
 add('C09', ['C09'], 'model_checking',
     "Explicit-state BFS over every operation sequence (append sync/async, sync, truncate at every distance, clear, reopen, jump-append, trim with 2 cutoffs x 3 commit offsets) up to depth 5 (quick) / 8 (thorough) on the real WAL for 3-4 segment/payload/sync configurations, each step compared with a list model through the full public read API plus white-box offsets.",
@@ -117,7 +117,7 @@ for p in props:
         "engine": c['engine'],
         "level_claimed": {"category": level, "text": c['text'] + (NODE_FSM if any(x.endswith('N') for x in stages) else '') + (LEADER_FSM if any(x.endswith('L') for x in stages) else ''), "design_ref": c['ref']},
         "level_note": c['note'],
-        "technique": c['technique'] + (" + explicit-state model checking of a whole storage node as a protocol state machine (all event sequences up to a depth replayed on the real server)" if any(x.endswith('N') for x in stages) else ''),
+        "technique": c['technique'] + (" + explicit-state model checking of a whole storage node as a protocol state machine (all event sequences up to a depth replayed on the real server)" if any(x.endswith('N') for x in stages) else '') + (" + explicit-state model checking of the leader controller against checking followers (all leader event sequences up to a depth replayed on the real controller)" if any(x.endswith('L') for x in stages) else ''),
     })
     for e in c['engine'].split('+') + (['nfsm'] if any(x.endswith('N') for x in stages) else []) + (['lfsm'] if any(x.endswith('L') for x in stages) else []):
         engines.setdefault(e, []).append(pid)
